@@ -3,8 +3,10 @@
 package harness
 
 import (
+	"cosmossdk.io/store/prefix"
 	"encoding/hex"
 	"fmt"
+	"github.com/Canto-Network/Canto/v8/x/govshuttle"
 	"math/big"
 	"sort"
 	"strings"
@@ -481,6 +483,23 @@ func runC20(e *Env) {
 		var steps []string
 		sig := ""
 		for i, o := range kase.Ops {
+			// Genesis round trip of the module between proposals (a chain restarted from an export): the port address and
+			// every record must read the same afterwards - in particular "no port yet" must stay "no port yet", so that
+			// the first proposal still deploys the store contract.  Before the first proposal of a third of the cases, and
+			// with probability 0.15 before any other.
+			if (i == 0 && c%3 == 0) || (e.Replay == nil && e.Chance(0.15)) || (e.Replay != nil && i > 0) {
+				before, _ := c20Observe(a, ctx, in, watch)
+				gs := govshuttle.ExportGenesis(ctx, a.GovshuttleKeeper)
+				st := prefix.NewStore(ctx.KVStore(a.GetKey(govshuttletypes.StoreKey)), govshuttletypes.PortKey)
+				st.Delete(govshuttletypes.PortKey)
+				govshuttle.InitGenesis(ctx, a.GovshuttleKeeper, a.AccountKeeper, *gs)
+				after, _ := c20Observe(a, ctx, in, watch)
+				e.Stats.Count("genesis-round-trip")
+				if before != after {
+					e.Stats.ImplFailures = append(e.Stats.ImplFailures, ImplFailure{Case: c, Step: i, Monitor: "genesis-round-trip-changed-port-or-records",
+						Detail: fmt.Sprintf("exported port %q; what the chain reports before and after export + import differs", gs.PortContractAddr)})
+				}
+			}
 			if err := a.GovKeeper.ProposalID.Set(ctx, o.NextGovID); err != nil {
 				panic(err)
 			}
